@@ -94,3 +94,170 @@ pub mod fs {
         world::with(|w| w.disk.write_whole(&p, contents.as_ref()))
     }
 }
+
+/// `tokio::sync` with the three channel kinds rdest uses wrapped so that the simulator can inject
+/// seeded yields right before a send or a receive (a task that is "slow" at that point lets every
+/// other runnable task go first). Semantics are otherwise those of the real channels.
+pub mod sync {
+    pub use tokio_real::sync::*;
+
+    async fn maybe_yield() {
+        if world::sched_yield() {
+            tokio_real::task::yield_now().await;
+        }
+    }
+
+    pub mod mpsc {
+        use super::maybe_yield;
+        use std::fmt;
+        pub use tokio_real::sync::mpsc::error;
+        use tokio_real::sync::mpsc as real;
+
+        pub struct Sender<T>(real::Sender<T>);
+
+        impl<T> Clone for Sender<T> {
+            fn clone(&self) -> Self {
+                Sender(self.0.clone())
+            }
+        }
+
+        impl<T> fmt::Debug for Sender<T> {
+            fn fmt(&self, f: &mut fmt::Formatter<'_>) -> fmt::Result {
+                self.0.fmt(f)
+            }
+        }
+
+        impl<T> Sender<T> {
+            pub async fn send(&self, value: T) -> Result<(), error::SendError<T>> {
+                maybe_yield().await;
+                self.0.send(value).await
+            }
+        }
+
+        pub struct Receiver<T>(real::Receiver<T>);
+
+        impl<T> fmt::Debug for Receiver<T> {
+            fn fmt(&self, f: &mut fmt::Formatter<'_>) -> fmt::Result {
+                self.0.fmt(f)
+            }
+        }
+
+        impl<T> Receiver<T> {
+            /// Cancel-safe like the real one: the yield happens before anything is taken.
+            pub async fn recv(&mut self) -> Option<T> {
+                maybe_yield().await;
+                self.0.recv().await
+            }
+        }
+
+        pub fn channel<T>(buffer: usize) -> (Sender<T>, Receiver<T>) {
+            let (tx, rx) = real::channel(buffer);
+            (Sender(tx), Receiver(rx))
+        }
+    }
+
+    pub mod oneshot {
+        use std::fmt;
+        use std::future::Future;
+        use std::pin::Pin;
+        use std::task::{Context, Poll};
+        pub use tokio_real::sync::oneshot::error;
+        use tokio_real::sync::oneshot as real;
+
+        pub struct Sender<T>(real::Sender<T>);
+
+        impl<T> fmt::Debug for Sender<T> {
+            fn fmt(&self, f: &mut fmt::Formatter<'_>) -> fmt::Result {
+                f.write_str("oneshot::Sender")
+            }
+        }
+
+        impl<T> Sender<T> {
+            pub fn send(self, value: T) -> Result<(), T> {
+                self.0.send(value)
+            }
+        }
+
+        pub struct Receiver<T> {
+            inner: real::Receiver<T>,
+            first: bool,
+        }
+
+        impl<T> fmt::Debug for Receiver<T> {
+            fn fmt(&self, f: &mut fmt::Formatter<'_>) -> fmt::Result {
+                f.write_str("oneshot::Receiver")
+            }
+        }
+
+        impl<T> Future for Receiver<T> {
+            type Output = Result<T, error::RecvError>;
+            fn poll(mut self: Pin<&mut Self>, cx: &mut Context<'_>) -> Poll<Self::Output> {
+                if self.first {
+                    self.first = false;
+                    if world::sched_yield() {
+                        cx.waker().wake_by_ref();
+                        return Poll::Pending;
+                    }
+                }
+                Pin::new(&mut self.inner).poll(cx)
+            }
+        }
+
+        pub fn channel<T>() -> (Sender<T>, Receiver<T>) {
+            let (tx, rx) = real::channel();
+            (Sender(tx), Receiver { inner: rx, first: true })
+        }
+    }
+
+    pub mod broadcast {
+        use super::maybe_yield;
+        use std::fmt;
+        pub use tokio_real::sync::broadcast::error;
+        use tokio_real::sync::broadcast as real;
+
+        pub struct Sender<T>(real::Sender<T>);
+
+        impl<T> Clone for Sender<T> {
+            fn clone(&self) -> Self {
+                Sender(self.0.clone())
+            }
+        }
+
+        impl<T> fmt::Debug for Sender<T> {
+            fn fmt(&self, f: &mut fmt::Formatter<'_>) -> fmt::Result {
+                f.write_str("broadcast::Sender")
+            }
+        }
+
+        impl<T: Clone> Sender<T> {
+            pub fn send(&self, value: T) -> Result<usize, error::SendError<T>> {
+                self.0.send(value)
+            }
+
+            pub fn subscribe(&self) -> Receiver<T> {
+                Receiver(self.0.subscribe())
+            }
+        }
+
+        pub struct Receiver<T>(real::Receiver<T>);
+
+        impl<T> fmt::Debug for Receiver<T> {
+            fn fmt(&self, f: &mut fmt::Formatter<'_>) -> fmt::Result {
+                f.write_str("broadcast::Receiver")
+            }
+        }
+
+        impl<T: Clone> Receiver<T> {
+            /// Cancel-safe like the real one: the yield happens before anything is taken.
+            pub async fn recv(&mut self) -> Result<T, error::RecvError> {
+                maybe_yield().await;
+                self.0.recv().await
+            }
+        }
+
+        pub fn channel<T: Clone>(capacity: usize) -> (Sender<T>, Receiver<T>) {
+            let (tx, rx) = real::channel(capacity);
+            (Sender(tx), Receiver(rx))
+        }
+    }
+}
